@@ -29,13 +29,20 @@ struct ares_qcache {
   ares_htable_strvp_t *cache;
   ares_slist_t        *expire;
   unsigned int         max_ttl;
+  /* Number of callbacks currently running with a record owned by the cache,
+   * and the entries removed from the cache meanwhile.  Those are only
+   * released once nothing is lent out any more. */
+  size_t                      lent;
+  struct ares_qcache_entry   *parked;
 };
 
-typedef struct {
-  char              *key;
-  ares_dns_record_t *dnsrec;
-  time_t             expire_ts;
-  time_t             insert_ts;
+typedef struct ares_qcache_entry {
+  char                     *key;
+  ares_dns_record_t        *dnsrec;
+  time_t                    expire_ts;
+  time_t                    insert_ts;
+  ares_qcache_t            *cache;
+  struct ares_qcache_entry *parked_next;
 } ares_qcache_entry_t;
 
 static char *ares_qcache_calc_key(const ares_dns_record_t *dnsrec)
@@ -167,6 +174,41 @@ void ares_qcache_flush(ares_qcache_t *cache)
   ares_qcache_expire(cache, NULL /* flush all */);
 }
 
+static void ares_qcache_entry_free(ares_qcache_entry_t *entry)
+{
+  ares_free(entry->key);
+  ares_dns_record_destroy(entry->dnsrec);
+  ares_free(entry);
+}
+
+static void ares_qcache_free_parked(ares_qcache_t *cache)
+{
+  while (cache->parked != NULL) {
+    ares_qcache_entry_t *entry = cache->parked;
+    cache->parked              = entry->parked_next;
+    ares_qcache_entry_free(entry);
+  }
+}
+
+void ares_qcache_lend(ares_qcache_t *cache)
+{
+  if (cache == NULL) {
+    return;
+  }
+  cache->lent++;
+}
+
+void ares_qcache_unlend(ares_qcache_t *cache)
+{
+  if (cache == NULL || cache->lent == 0) {
+    return;
+  }
+  cache->lent--;
+  if (cache->lent == 0) {
+    ares_qcache_free_parked(cache);
+  }
+}
+
 void ares_qcache_destroy(ares_qcache_t *cache)
 {
   if (cache == NULL) {
@@ -174,7 +216,9 @@ void ares_qcache_destroy(ares_qcache_t *cache)
   }
 
   ares_htable_strvp_destroy(cache->cache);
+  cache->lent = 0;
   ares_slist_destroy(cache->expire);
+  ares_qcache_free_parked(cache);
   ares_free(cache);
 }
 
@@ -201,9 +245,16 @@ static void ares_qcache_entry_destroy_cb(void *arg)
     return; /* LCOV_EXCL_LINE: DefensiveCoding */
   }
 
-  ares_free(entry->key);
-  ares_dns_record_destroy(entry->dnsrec);
-  ares_free(entry);
+  /* A callback may be running with a record of the cache (possibly this
+   * one) while its own requests expire entries or a server change flushes
+   * the cache: keep the memory until that callback has returned. */
+  if (entry->cache != NULL && entry->cache->lent > 0) {
+    entry->parked_next    = entry->cache->parked;
+    entry->cache->parked  = entry;
+    return;
+  }
+
+  ares_qcache_entry_free(entry);
 }
 
 ares_status_t ares_qcache_create(ares_rand_state *rand_state,
@@ -352,6 +403,7 @@ static ares_status_t ares_qcache_insert_int(ares_qcache_t           *qcache,
     goto fail; /* LCOV_EXCL_LINE: OutOfMemory */
   }
 
+  entry->cache     = qcache;
   entry->dnsrec    = qresp;
   entry->expire_ts = (time_t)now->sec + (time_t)ttl;
   entry->insert_ts = (time_t)now->sec;
